@@ -555,3 +555,38 @@ Proof.
     cbn [forallb] in H. apply andb_prop in H as [H0 H1]. rewrite (IH _ H1), andb_true_r.
     destruct (sb_num s <=? 1); [destruct s; cbn [sset_num sb_is_adv] in *; assumption|assumption].
 Qed.
+
+(* ------------------------------------------------------------------ validity of an IAT batch, per entry *)
+
+(* the Arith half of [iat_entry_ok] is what Arith.validate_batch says about the abstract IAT batch:
+   an input batch that validates supplies it for each of its entries *)
+Lemma valid_iat_entries (A : Arith.tables) (hd : bytes -> hdrp) (ip : bytes -> ipay) (iq : bytes -> iqpay) x :
+  Arith.validate_batch A (fi_batch A hd ip iq x) = Arith.ROk ->
+  forall e, In e (b_entries x) ->
+    class_okb A (hd_class (hd (b_sig x))) = true /\ hd_class (hd (b_sig x)) <> Arith.t_advclass A /\
+    bytes_eqb (hd_odfi (hd (b_sig x))) (repeat zero 9) = false /\
+    Arith.validate_entry A Arith.KIAT (fi_entry ip iq e) = Arith.ROk /\
+    Arith.bytes_leb (e_trace e) (Arith.ascending_init Arith.KIAT) = false /\
+    Arith.trace_prefix Arith.KIAT (fi_entry ip iq e) = stringField (hd_odfi (hd (b_sig x))) 8.
+Proof.
+  intros Hv e He.
+  pose proof (verify_facts A _ (validate_batch_verify A _ Hv)) as F.
+  destruct F as [_ Fe Fc Fcl Fo _ _ Fasc _ _ _ Ft].
+  unfold Arith.validate_batch in Hv. cbn [fi_batch tabulate Arith.bt_kind] in Hv.
+  apply andr_ok in Hv as [_ Hadv]. apply chk_true in Hadv; [|discriminate].
+  cbn [fi_batch tabulate Arith.bt_kind Arith.bt_class Arith.bt_odfi Arith.bt_entries Arith.bt_ctl tab_ctl
+       Arith.bc_class Arith.bc_odfi] in *.
+  specialize (Fasc ltac:(discriminate)). apply ascending_above in Fasc.
+  unfold Arith.trace_odfi_ok in Ft. rewrite forallb_forall in Ft.
+  unfold Arith.validate_bctl in Fc. cbn [Arith.bc_class Arith.bc_odfi Arith.bc_debit Arith.bc_credit] in Fc. ok_split.
+  rewrite Forall_forall in Fe, Fasc.
+  assert (Hin : In (fi_entry ip iq e) (map (fi_entry ip iq) (b_entries x))) by now apply in_map.
+  repeat split.
+  - apply class_okb_spec. split; [|assumption].
+    match goal with H : negb (_ =? 0) = true |- _ => now apply negb_true_iff, Z.eqb_neq in H end.
+  - now apply negb_true_iff, Z.eqb_neq in Hadv.
+  - match goal with H : negb (bytes_eqb _ _) = true |- _ => now apply negb_true_iff in H end.
+  - now apply Fe.
+  - exact (Fasc _ Hin).
+  - symmetry. apply bytes_eqb_eq. now apply Ft.
+Qed.
